@@ -72,6 +72,14 @@ def run_case(sh, case):
       orig()
     top.set_metadata(VcdGenerationPass.vcd_func, wrapped)
     PrepareSimPass(print_line_trace=False)(top)
+    # a second simulator of the same design, alive in the same process and ticked in between (records are per simulator)
+    twin = None
+    if rng.random() < 0.4:
+      from pymtl3 import DefaultPassGroup
+      twin = getattr(mod, d["top"])(); twin.elaborate()
+      twin.apply(DefaultPassGroup(textwave=True))
+      twin_live = M.Live(twin)
+      sh.count("designs_with_an_interleaved_second_simulator")
     widths = {p: w for p, w in G.top_inputs(d)}
     ncyc = rng.randrange(20, 60 if sh.tier == "quick" else 100)
     seq = M.gen_inputs(rng, d, ncyc)
@@ -89,6 +97,9 @@ def run_case(sh, case):
       if hold and cyc > 3 and cyc % 3: inp = seq[cyc - 1]; seq[cyc] = inp     # inputs that return / do not change
       M.set_inputs(top, live, inp, widths, int(cyc in resets))
       top.sim_tick()
+      if twin is not None:
+        M.set_inputs(twin, twin_live, {p: v ^ G.mask(widths[p]) for p, v in inp.items()}, widths, int(cyc < 2))
+        twin.sim_tick()
     text = open(fname + ".vcd").read()
     vars_, changes = vcdparse.parse(text)
     sh.count("change_records_parsed", sum(len(v) for v in changes.values()))
